@@ -116,6 +116,18 @@ func (c *Encoder) encodeStruct(v reflect.Value) {
 
 	vtyp := v.Type()
 
+	// fields, which are sharing same bit of flag, are present or absent all together: bit is set when at
+	// least one of them isn't zero, and then ALL of them must be written, including zero valued ones
+	for i := 0; hasFlagsField && i < v.NumField(); i++ {
+		info, err := parseTag(vtyp.Field(i).Tag)
+		if err != nil || info == nil || info.ignore {
+			continue // reported by the main loop below
+		}
+		if !v.Field(i).IsZero() {
+			flag |= 1 << info.index
+		}
+	}
+
 	for i := 0; i < v.NumField(); i++ {
 		// THIS PART is appending to object meta value, that actually don't writing in real encodeValue
 		if hasFlagsField && flagIndex == i {
@@ -144,7 +156,7 @@ func (c *Encoder) encodeStruct(v reflect.Value) {
 		}
 
 		fieldVal := v.Field(i)
-		if !fieldVal.IsZero() {
+		if !fieldVal.IsZero() || flag&(1<<info.index) != 0 {
 			// тег есть, это 100% опциональное поле
 			flag |= 1 << info.index
 			if info.encodedInBitflag {
